@@ -520,6 +520,17 @@ impl<'c, T: Sut> Sim<'c, T> {
             if f != 0 {
                 self.cx.hit(Probe::push_form_noncanonical);
             }
+            if self.caps.zst_huge {
+                if self.pop[i].model.iter().any(|m| m.1.stored_len().map(|l| l > u32::MAX as usize / 2).unwrap_or(false)) {
+                    self.cx.hit(Probe::push_after_offsets_exceed_u32);
+                }
+                if v.stored_len().map(|l| l > u32::MAX as usize / 2).unwrap_or(false) {
+                    self.cx.hit(Probe::huge_zst_item_pushed);
+                }
+            }
+            if self.caps.dense && self.pop[i].model.iter().all(|m| m.1.stored_len() < v.stored_len()) && !self.pop[i].model.is_empty() {
+                self.cx.hit(Probe::row_longer_than_all_earlier);
+            }
             match r {
                 Err(p) => {
                     if !contract {
